@@ -35,13 +35,14 @@ import (
 )
 
 type op struct {
-	Op    string `json:"op"`
-	ID    int    `json:"id"`
-	Sub   int    `json:"sub"`
-	Reply bool   `json:"reply"`
-	Out   bool   `json:"out"`
-	DurUs int    `json:"dur_us"`
-	Us    int    `json:"us"`
+	Op     string `json:"op"`
+	ID     int    `json:"id"`
+	Sub    int    `json:"sub"`
+	Reply  bool   `json:"reply"`
+	Out    bool   `json:"out"`
+	DurUs  int    `json:"dur_us"`
+	StopIn bool   `json:"stop_in"` // pub: the handler of this request calls Stop itself (a "shutdown" request)
+	Us     int    `json:"us"`
 }
 
 type req struct {
@@ -55,8 +56,8 @@ type req struct {
 	DrainTimeoutUs int `json:"drain_timeout_us"`
 	// HighWatermarkUs > 0: the builder's WithHighWatermark option (a request that waited longer in the queue is
 	// to be warned about, nothing else); the default event handlers always run underneath the recording ones
-	HighWatermarkUs int `json:"high_watermark_us"`
-	Ops       []op `json:"ops"`
+	HighWatermarkUs int  `json:"high_watermark_us"`
+	Ops             []op `json:"ops"`
 }
 
 type resp struct {
@@ -100,7 +101,8 @@ type tokenKey struct{}
 // proc is a minimal FProcessor: the request body says how long to work and whether
 // to produce a response.
 type proc struct {
-	rec *recorder
+	rec    *recorder
+	stopFn func()
 }
 
 func (p *proc) Process(in, out *frugal.FProtocol) error {
@@ -120,6 +122,9 @@ func (p *proc) Process(in, out *frugal.FProtocol) error {
 	wantOut := body[4] == 1
 	dur := time.Duration(binary.BigEndian.Uint32(body[8:12])) * time.Microsecond
 	p.rec.add(5, tok, id)
+	if body[5] == 1 && p.stopFn != nil {
+		p.stopFn() // Stop from inside a request: returns once no further request is accepted; this one goes on
+	}
 	if dur > 0 {
 		time.Sleep(dur)
 	}
@@ -132,7 +137,7 @@ func (p *proc) Process(in, out *frugal.FProtocol) error {
 	}
 	return nil
 }
-func (p *proc) AddMiddleware(frugal.ServiceMiddleware)      {}
+func (p *proc) AddMiddleware(frugal.ServiceMiddleware)    {}
 func (p *proc) Annotations() map[string]map[string]string { return nil }
 
 var (
@@ -220,7 +225,8 @@ func handle(q req) resp {
 		hw = time.Duration(q.HighWatermarkUs) * time.Microsecond
 	}
 	defaultStarted := frugal.NewDefaultFNatsServerOnRequestStarted(hw)
-	b := frugal.NewFNatsServerBuilder(srvConn, &proc{rec: rec},
+	theProc := &proc{rec: rec}
+	b := frugal.NewFNatsServerBuilder(srvConn, theProc,
 		frugal.NewFProtocolFactory(thrift.NewTBinaryProtocolFactoryDefault()), subjects).
 		WithWorkerCount(uint(q.Workers)).WithQueueLength(uint(q.QLen)).
 		WithRequestReceivedEventHandler(func(m map[interface{}]interface{}) {
@@ -262,6 +268,18 @@ func handle(q req) resp {
 	budget := 10 * time.Second
 	stopDone := make(chan struct{})
 	stopCalled := false
+	var stopOnce sync.Once
+	var stopFlag int32
+	doStop := func() {
+		stopOnce.Do(func() {
+			atomic.StoreInt32(&stopFlag, 1)
+			rec.add(7, 0, 0)
+			e := srv.Stop()
+			rec.add(8, int64(hx.Classify(e)), 0)
+			close(stopDone)
+		})
+	}
+	theProc.stopFn = doStop
 	for _, o := range q.Ops {
 		switch o.Op {
 		case "pub":
@@ -270,6 +288,9 @@ func handle(q req) resp {
 			binary.BigEndian.PutUint32(body[4:8], uint32(o.ID))
 			if o.Out {
 				body[8] = 1
+			}
+			if o.StopIn {
+				body[9] = 1
 			}
 			binary.BigEndian.PutUint32(body[12:16], uint32(o.DurUs))
 			budget += time.Duration(o.DurUs) * time.Microsecond
@@ -294,15 +315,10 @@ func handle(q req) resp {
 		case "stop":
 			if !stopCalled {
 				stopCalled = true
-				go func() {
-					rec.add(7, 0, 0)
-					e := srv.Stop()
-					rec.add(8, int64(hx.Classify(e)), 0)
-					close(stopDone)
-				}()
+				go doStop()
 			}
 		case "stop_wait":
-			if stopCalled {
+			if stopCalled || atomic.LoadInt32(&stopFlag) == 1 {
 				select {
 				case <-stopDone:
 				case <-time.After(budget):
@@ -316,12 +332,7 @@ func handle(q req) resp {
 	}
 	if !stopCalled && r.Hang == "" {
 		stopCalled = true
-		go func() {
-			rec.add(7, 0, 0)
-			e := srv.Stop()
-			rec.add(8, int64(hx.Classify(e)), 0)
-			close(stopDone)
-		}()
+		go doStop()
 	}
 	if r.Hang == "" {
 		select {
